@@ -84,6 +84,43 @@ func (s *VerifPartitionSM) Apply(change *pb.PartitionChange) (data []byte, out V
 	return data, out
 }
 
+// ApplyObserved applies an entry proposed elsewhere (a follower, a replay) and
+// still reports its outcome: a channel is registered under the entry's own
+// notification id before the entry is processed.
+func (s *VerifPartitionSM) ApplyObserved(data []byte) (out VerifOutcome) {
+	var change pb.PartitionChange
+	if err := proto.Unmarshal(data, &change); err != nil {
+		out.ProcessErr = "unmarshal: " + err.Error()
+		return out
+	}
+	notifId, err := uuid.FromBytes(change.GetNotificationId())
+	if err != nil {
+		return s.applyBytes(data)
+	}
+	notifC := s.p.notificator.VerifCreateWithId(notifId, 1)
+	defer s.p.notificator.Remove(notifId)
+	out = s.applyBytes(data)
+	select {
+	case v := <-notifC:
+		out.Notified = true
+		switch r := v.(type) {
+		case nil:
+		case partitionBatchResult:
+			out.IsBatch = true
+			out.Batch = make(map[string]string)
+			for id, e := range r {
+				out.Batch[id.String()] = e.Error()
+			}
+		case error:
+			out.Single = r.Error()
+		default:
+			out.Single = fmt.Sprintf("unexpected outcome %T", v)
+		}
+	default:
+	}
+	return out
+}
+
 // ApplyBytes applies an entry nobody waits for (a follower, or a replay).
 func (s *VerifPartitionSM) ApplyBytes(data []byte) VerifOutcome {
 	return s.applyBytes(data)
